@@ -237,6 +237,8 @@ def floordiv_int(a, b, check=True):
   if key in c.ghost:
     return c.ghost[key]
   sp = split_affine(a, b)
+  if sp is None:
+    sp = split_affine(z3.simplify(a), b)
   if sp is not None:
     x, y = sp
     side = z3.Or(z3.And(y >= 0, y < b), z3.And(y <= 0, y > b))
@@ -297,6 +299,12 @@ class SInt(Sym):
     orz = _as_real_z(o)
     if orz is None:
       return NotImplemented
+    oz = _as_int_z(o)
+    if oz is not None and not z3.is_int_value(oz):
+      # exact quotient when the divisor is a syntactic factor: (x*d)/d = x for d != 0
+      sp = split_affine(self.z, oz) or split_affine(z3.simplify(self.z), oz)
+      if sp is not None and z3.is_int_value(sp[1]) and sp[1].as_long() == 0 and prove(SBool(oz != 0)):
+        return SReal(z3.ToReal(sp[0]))
     return SReal(z3.ToReal(self.z)) / o
 
   def __rtruediv__(self, o):
